@@ -126,16 +126,16 @@ def check(ctx, rep, nsets, only=None):
             width = (u - l) if math.isfinite(u - l) else (q - p)
             # ---- the property's clauses on the implementation's outputs ------------------------------------
             lbT, ubT = float(np.ravel(vt.lb)[i]), float(np.ravel(vt.ub)[i])
-            if np.any(U[:, i] < lbT) or np.any(U[:, i] > ubT):
+            if not np.all((U[:, i] >= lbT) & (U[:, i] <= ubT)):      # NaN (image or bound) fails too
                 rep.violation("forward_range", SITE + ".__call__", f"coordinate {i}: forward map output outside the internal box [{lbT},{ubT}]: {U[:, i].tolist()}", ccase)
-            if np.any(Xi[:, i] < l) or np.any(Xi[:, i] > u) or np.any(Xb[:, i] < l) or np.any(Xb[:, i] > u):
+            if not (np.all((Xi[:, i] >= l) & (Xi[:, i] <= u)) and np.all((Xb[:, i] >= l) & (Xb[:, i] <= u))):
                 rep.violation("inverse_range", SITE + ".inverse_transf", f"coordinate {i}: inverse map output outside the hard bounds [{l},{u}]", ccase)
-            if np.any(np.diff(U[:, i]) < 0):
+            if not np.all(np.diff(U[:, i]) >= 0):
                 rep.violation("forward_monotone", SITE + ".__call__", f"coordinate {i}: forward map reverses the order of two points: x={X[:, i].tolist()} u={U[:, i].tolist()}", ccase)
-            if np.any(np.diff(Xi[:, i]) < 0):
+            if not np.all(np.diff(Xi[:, i]) >= 0):
                 rep.violation("inverse_monotone", SITE + ".inverse_transf", f"coordinate {i}: inverse map reverses the order of two points", ccase)
             pl_t, pu_t = float(np.ravel(vt.plb)[i]), float(np.ravel(vt.pub)[i])
-            if abs(pl_t + 1) > 1e-9 or abs(pu_t - 1) > 1e-9:
+            if not (abs(pl_t + 1) <= 1e-9) or not (abs(pu_t - 1) <= 1e-9):
                 rep.violation("plausible_to_unit", SITE, f"coordinate {i}: plausible bounds map to ({pl_t},{pu_t}) instead of (-1,+1)", ccase)
             inside = (X[:, i] >= l) & (X[:, i] <= u)
             stats["outside_points"] += int(np.sum(~inside))
